@@ -2058,6 +2058,52 @@ def _map_values(it, args, dty, func):
     return Agg("{owned_iter}", [Seq("vec", items, "?"), 0])
 
 
+# HashSet<K> as a map with unit values
+@model("std::collections::HashSet::new")
+def _set_new(it, args, dty, func):
+    return MapV("HashMap", [])
+
+
+@model("std::collections::HashSet::insert")
+def _set_insert(it, args, dty, func):
+    m = map_of(args[0])
+    if map_find_idx(it, m, args[1]) is not None:
+        return False
+    m.items.append((args[1], UNIT))
+    return True
+
+
+@model("std::collections::HashSet::contains")
+def _set_contains(it, args, dty, func):
+    return map_find_idx(it, map_of(args[0]), _deref(args[1])) is not None
+
+
+@model("std::collections::HashSet::remove")
+def _set_remove(it, args, dty, func):
+    m = map_of(args[0])
+    i = map_find_idx(it, m, _deref(args[1]))
+    if i is None:
+        return False
+    m.items.pop(i)
+    return True
+
+
+@model("std::collections::HashSet::len")
+def _set_len(it, args, dty, func):
+    return len(map_of(args[0]).items)
+
+
+@model("std::collections::HashSet::is_empty")
+def _set_is_empty(it, args, dty, func):
+    return not map_of(args[0]).items
+
+
+@model("std::collections::HashSet::iter")
+def _set_iter(it, args, dty, func):
+    m = map_of(args[0])
+    return Agg("{owned_iter}", [Seq("vec", [Ref(Cell(k, "key"), ()) for k, _ in m.items], "?"), 0])
+
+
 @model("std::collections::HashMap::keys")
 def _map_keys(it, args, dty, func):
     m = map_of(args[0])
